@@ -78,10 +78,20 @@ theorem canonOpt_modes (U : List UInt8) (hU : (0x25 : UInt8) ∈ U) (hA : AsciiS
       simp only [h2, Bool.false_eq_true, if_false]
       rw [requote_modes U hU hA q1 q2 u (fun e => hcl e u rfl)]
 
+/-- a query key / value whose raw characters all survive `safely_quote(…, safe="/+")` followed
+by the safe unquoter of query items -/
+def cleanItem (s : Str) : Bool := cleanStrBy quoteSafeQ Gen.Quote.unsafeForQueryItem s
+
+/-- `safely_unquote_query_item ∘ safely_quote(…, safe="/+") ∘ safely_unquote_query_item` on a
+clean key / value -/
+theorem unquote_quoteQueryItem {s : Str} (h : cleanItem s = true) :
+    unquoteQueryItem (quoteQueryItem (unquoteQueryItem s)) = unquoteQueryItem s :=
+  safelyUnquote_quoteBy_unquote safeSet_quoteSafeQ Gen.Quote.unsafeForQueryItem (by decide)
+    (by unfold AsciiSet; decide) s h
+
 /-- every key and value of the query is clean -/
 def QslClean (x : Str) : Prop :=
-  ∀ kv ∈ safeQslIter x, cleanStr Gen.Quote.unsafeForQueryItem kv.1 = true ∧
-    ∀ v ∈ kv.2, cleanStr Gen.Quote.unsafeForQueryItem v = true
+  ∀ kv ∈ safeQslIter x, cleanItem kv.1 = true ∧ ∀ v ∈ kv.2, cleanItem v = true
 
 def modeQsl (q : Bool) (qsl : List (Str × Option Str)) : List (Str × Option Str) :=
   if q then quoteQsl (unquoteQsl qsl) else unquoteQsl qsl
@@ -125,12 +135,12 @@ theorem canonQuery_modes (q1 q2 : Bool) (x : Str) (hcl : q1 = true → QslClean 
       intro kv hkv
       obtain ⟨k, v⟩ := kv
       have hk := (hc _ hkv).1
-      simp only [Function.comp, unquoteQueryItem, safelyUnquote_quote_unquote _ hU hA k hk]
+      simp only [Function.comp, unquote_quoteQueryItem hk]
       cases v with
       | none => rfl
       | some v0 =>
         have hv := (hc _ hkv).2 v0 rfl
-        simp [safelyUnquote_quote_unquote _ hU hA v0 hv]
+        simp [unquote_quoteQueryItem hv]
   unfold modeQsl at key ⊢
   cases q2
   · simp only [Bool.false_eq_true, if_false]; exact key
